@@ -108,6 +108,52 @@ fn unicode_soup(rng: &mut Rng) -> String {
     s
 }
 
+/// the inside of a string literal made of escape sequences at and around every boundary the grammar and the string
+/// builder have to agree on: surrogate range ends, the scalar-value ceiling, leading zeros, pairs, truncated forms
+fn escape_soup(rng: &mut Rng) -> String {
+    const CP: &[&str] = &["0", "41", "7F", "D7FF", "D800", "D801", "DBFF", "DC00", "DFFF", "E000", "FFFF", "10000", "1F600", "10FFFF", "110000", "FFFFFF", "d800", "dfff", "10ffff"];
+    const U4: &[&str] = &["0041", "00e9", "D7FF", "D800", "D83D", "DBFF", "DC00", "DE00", "DFFF", "E000", "FFFF", "d83d", "de00"];
+    const MISC: &[&str] = &["\\u", "\\u{", "\\u{}", "\\u{G}", "\\u12", "\\u{12", "\\x41", "\\", "\\\"", "\\\\", "\\/", "\\b", "\\f", "\\n", "\\r", "\\t", "\\a", "\\0", "x", " ", "é", "😀", "$", "{", "}"];
+    let n = rng.range(1, 5);
+    let mut s = String::new();
+    for _ in 0..n {
+        match rng.below(5) {
+            0 | 1 => {
+                s.push_str("\\u{");
+                for _ in 0..rng.below(4) * rng.below(3) {
+                    s.push('0');
+                }
+                s.push_str(rng.s(CP));
+                s.push('}');
+            }
+            2 => {
+                s.push_str("\\u");
+                s.push_str(rng.s(U4));
+            }
+            3 => {
+                // a high surrogate escape followed by something
+                s.push_str("\\u");
+                s.push_str(rng.s(&["D83D", "D800", "DBFF", "d83d"]));
+                match rng.below(4) {
+                    0 => {
+                        s.push_str("\\u");
+                        s.push_str(rng.s(&["DE00", "DC00", "DFFF", "0041", "D83D"]));
+                    }
+                    1 => {
+                        s.push_str("\\u{");
+                        s.push_str(rng.s(&["DE00", "DC00", "41"]));
+                        s.push('}');
+                    }
+                    2 => s.push('x'),
+                    _ => {}
+                }
+            }
+            _ => s.push_str(rng.s(MISC)),
+        }
+    }
+    s
+}
+
 fn nested(rng: &mut Rng, depth: usize) -> (String, String) {
     // (schema, operation) with nesting
     let mut op = String::from("query N { ");
@@ -214,7 +260,20 @@ fn gen_inputs(rng: &mut Rng) -> (String, String, String, String, &'static str) {
     let mut frag = BASE_FRAG.to_string();
     let mut config = BASE_CONFIG.to_string();
     let kind;
-    match rng.below(12) {
+    match rng.below(13) {
+        11 => {
+            kind = "escape-soup";
+            let e = escape_soup(rng);
+            let lit = if rng.chance(1, 5) { format!("\"\"\"{e}\"\"\"") } else { format!("\"{e}\"") };
+            match rng.below(6) {
+                0 => op = op.replace("  a\n", &format!("  a @skip(if: {lit})\n")),
+                1 => op = op.replace("{k: 1}", &format!("{{k: {lit}}}")),
+                2 => op = op.replace("\"./frag.graphql\"", &format!("\"{e}\"")),
+                3 => schema = schema.replace("\"no\"", &lit),
+                4 => schema = format!("{lit}\n{schema}"),
+                _ => schema = schema.replace("k: Int = 1", &format!("k: Int = 1 s: String = {lit}")),
+            }
+        }
         0 => {
             kind = "mutated-operation";
             op = mutate_tokens(&op, rng);
